@@ -153,7 +153,7 @@ def comp_check(ctx, defs):
             # unknown key at every dictionary node
             plain = ["zz_unknown"] + sorted(set(G.OMIT["programs"] + G.OMIT["methods"] + G.OMIT["simulation_settings"]))
             # name-aware stream: substrings / case variants / neighbours of every key, level name and omit key
-            derived = [x for x in G.derived_unknown_names(rng, defs, omit, ctx.pick(40, None)) if x not in plain] if rep == 0 else []
+            derived = [x for x in G.derived_unknown_names(rng, defs, omit, ctx.pick(40, 300)) if x not in plain] if rep == 0 else []
             for node in G.dict_nodes(d):
                 for name in plain + derived:
                     if name in get_or_empty(d, node):
@@ -523,12 +523,12 @@ def corruptions(rng, defs, files, full):
 
         nodes = list(G.dict_nodes(d))
         derived = [x for x in G.derived_unknown_names(rng, defs, omit, 12) if x not in omit and x != "zz_unknown"]
-        if len(derived) > 60:       # (methods: two long omit keys) keep the end-to-end sweep affordable
-            derived = rng.sample(derived, 60)
-        if not full:
-            derived = rng.sample(derived, min(3, len(derived)))
+        # keep the end-to-end sweep affordable: about 150 derived names per file, spread over its nodes
+        # (the component sweep has all of them at every node)
+        per_node = max(8, 150 // max(1, len(nodes)))
         for node in (nodes if full else rng.sample(nodes, min(2, len(nodes)))):
-            for name in ["zz_unknown"] + list(omit) + derived:
+            mine = rng.sample(derived, min(len(derived), per_node if full else 3))
+            for name in ["zz_unknown"] + list(omit) + mine:
                 if name in get_or_empty(d, node) or (kind == "method" and name == "default_parameters" and not node):
                     continue
                 if kind == "sim" and name == "programs":
